@@ -10,8 +10,8 @@ import time
 
 import common as C
 
-COQ_FILES = ("L5_Stores/Dbfs.v", "L5_Stores/DbfsProofs.v", "L5_Stores/DbfsHist.v", "L5_Stores/DbfsHistProofs.v", "Properties/C19.v", "Properties/C19b.v")
-PROPERTY_FILES = ("C19", "C19b")
+COQ_FILES = ("L5_Stores/Dbfs.v", "L5_Stores/DbfsProofs.v", "L5_Stores/DbfsHist.v", "L5_Stores/DbfsHistProofs.v", "L5_Stores/DbfsSteps.v", "L5_Stores/DbfsStepsProofs.v", "Properties/C19.v", "Properties/C19b.v", "Properties/C19c.v")
+PROPERTY_FILES = ("C19", "C19b", "C19c")
 PRELUDE = """From Coq Require Import List String.
 From DDS Require Import Base.Bytes L4_Eval.Store L5_Stores.Dbfs L5_Stores.DbfsHist.
 Import ListNotations.
@@ -126,7 +126,23 @@ def check_histories(rep, rng, n):
     with cf.ThreadPoolExecutor(max_workers=C.NPROC) as ex:
         res = list(ex.map(one, hs))
     model = C.coq_eval_strings(PRELUDE, [coq_history(h) for h in hs], label="c19h")
+    # the write-level model (DbfsSteps.v): which dbutils writes each operation makes, in which order
+    mtraces = C.coq_eval_strings(PRELUDE.replace("L5_Stores.DbfsHist.", "L5_Stores.DbfsHist L5_Stores.DbfsSteps."),
+                                 [coq_history(h).replace("run_show", "run_trace", 1) for h in hs], label="c19t")
     n_multi = n_raise = 0
+    n_writes = 0
+    for h, r, mt in zip(hs, res, mtraces):
+        if isinstance(r, dict):
+            continue
+        it = r[1].get("traces", [])
+        want = mt.split(";") if h["hist"] else []
+        n_writes += sum(len(x.split(",")) for x in it if x)
+        if it != want:
+            k = next((i for i, (a, b) in enumerate(zip(it, want)) if a != b), min(len(it), len(want)))
+            dec = lambda t: [w.split(">")[0] + ">" + bytes.fromhex(w.split(">")[1]).decode("utf-8", "replace") for w in t.split(",") if w]
+            rep.violation("model-mismatch:dbfs-write-order", f"history under {h['commit_type']}, operation {k} ({json.dumps(h['hist'][k])[:120] if k < len(h['hist']) else '-'}): "
+                          f"the store makes the writes {dec(it[k]) if k < len(it) else None}, the write-level model {dec(want[k]) if k < len(want) else None}",
+                          {"history": h, "impl_traces": it, "model_traces": want})
     for h, r, m in zip(hs, res, model):
         rep.case("history:" + json.dumps(h)[:400], nontrivial=any(op[0] == "sync" and len(op[1]) > 1 for op in h["hist"]))
         if isinstance(r, dict):
@@ -173,7 +189,7 @@ def check_histories(rep, rng, n):
                 rep.violation("history:full-copy-missing-or-stale", f"no byte-identical copy of the result at {obj}", {"history": h, "path": p, "out": o})
             if mode == "LINK_ONLY" and obj in o["files"]:
                 rep.violation("history:links-only-copies-data", f"links-only commit wrote {obj}", {"history": h, "path": p, "out": o})
-    return {"histories": len(hs), "multi_path_commits": n_multi, "calls_that_raised": n_raise}
+    return {"histories": len(hs), "multi_path_commits": n_multi, "calls_that_raised": n_raise, "dbutils_writes_compared_with_the_write_level_model": n_writes}
 
 
 def check_findings(rep):
